@@ -6,7 +6,7 @@ from locks import lock_hook
 import C16
 
 TECHNIQUE = 'static analysis: exhaustive path enumeration over MIR; symbolic counter-delta balance per path; sibling agreement of trait impls; impl/constructor census from the type-checked program'
-EXPLANATION = ('(1) Reservation/pool balance: on every non-error path of every MemoryReservation method the symbolic change applied '
+EXPLANATION = ('(1) Reservation/pool balance (and `size` is modified only by atomic read-modify-write operations, never load+store): on every non-error path of every MemoryReservation method the symbolic change applied '
                'to `size` equals the amount passed to the matching pool call (grow/try_grow +, shrink -, free: swap-to-0 with '
                'shrink(old), split: moved into the new reservation, no pool call); error paths commit nothing. (2) Every impl of '
                'MemoryPool: base pools add exactly `additional` in grow, subtract exactly `shrink` in shrink, add on the Ok path only '
@@ -58,6 +58,10 @@ def check_reservation(ctx, facts, adt=RES, prefix=MP, trait=TRAIT, rule='reserva
         for o in outs:
             ds = [x for x in delta_events(facts, o, inline_only=(prefix,), hook=lock_hook) if x[1] == 'size']
             pcs = [p for p in pool_calls(o, trait) if p[0] in ('grow', 'shrink', 'try_grow')]
+            plain = [(atomic_op(nm), ln) for nm, a, ln in calls(o, is_atomic) if atomic_op(nm) == 'store' and (tag_of(a[0]) or '').endswith('.size')]
+            if plain:
+                problems.add('`size` is written with a plain atomic store (line %s): a read-modify-write split into load/store loses concurrent updates '
+                             '(only swap / fetch_add / fetch_sub / fetch_update keep reserved() == sum of reservations under concurrency)' % plain[0][1])
             if not ds and not pcs:
                 continue
             relevant = True
